@@ -10,8 +10,13 @@ from lib.locals import local_inits as _local_inits, through_locals as _through_l
 
 TECHNIQUE = ("call-graph purity from parser::parse (with a positive control), MIR dominance of the remaining-input and error-log tests over the Ok exit, "
              "who-may-write for ParseString.cursor plus a sibling rule on the column/row bookkeeping, possibly-empty merge_tokens().unwrap() detection, and a "
+<<<<<<< HEAD
              "nullability fixpoint over the nom combinators deciding progress of every hand-written parser loop; R13: enumeration of every MIR Assert terminator and panicking-API call on "
              "the parse path with guard discharge by dominating conditional edges over symbolic operand trees (lib/mirguard.py)")
+=======
+             "nullability fixpoint over the nom combinators deciding progress of every hand-written parser loop")
+from rules.c09_loops import EXPLANATION as _R5_PER_PATH   # manifest sentence of the per-path clause of R5
+>>>>>>> 391e67b6994bf70620c7c4886a415463c5931b36
 EXPLANATION = (
     "Decides structural clauses of C09: (R1) nothing reachable from parser::parse touches files, environment, network, process, clock or randomness (same "
     "text, same outcome; a positive control on the file loader proves the detector fires); (R2) the Ok(tree) exit of parse() is dominated by a test of the "
@@ -21,6 +26,7 @@ EXPLANATION = (
     "consuming parser on its spine, consuming rebinds only, an explicit cursor comparison, or a counter; a loop that rebinds its input from a parser that is "
     "provably able to succeed without consuming, with no progress test, is reported (it can spin forever); loops with neither proof are listed as unproven. "
     "Not decided: that reported ranges lie inside the input (values), super-linear time."
+    + _R5_PER_PATH +
     " (R6) nothing on the parse path iterates a std HashMap/HashSet (per-instance random order); (R7) a catch-all arm that panics on the result of a sub-parser is dead: the sub-parser can return no variant outside the arms' patterns (variant sets over the parser call graph)."
     ' (R8) no ParseError is built with SourceRange::default(); (R9) format_error counts shown and remaining errors on the same list.'
     ' (R10) panicking element reads of the parser are guarded: the grapheme under the cursor is read only after is_empty() was tested false on that path; a constant-index read X[k] only where guards imply X.len() > k; Option/Vec unwraps the function itself tests elsewhere only where the test holds. Reads with a computed index are listed, not decided.'
@@ -164,6 +170,8 @@ def run(F, rep, tier):
     rep.analysed = {"parser_functions": len(fns), "proven_consuming": len([f for f in fns if f in N.cons]), "provably_nullable": sorted(dn)}
     rep.floor("C09-R5", "parser functions proven consuming", len([f for f in fns if f in N.cons]), 380)
     n_loops = 0
+    from rules.c09_loops import LoopProgress
+    per_path = LoopProgress(rep, N, dn)   # the must-argument: every back path of the loop advances the loop-carried input (rules/c09_loops.py)
     for it in items:
         if it["k"] not in ("fn", "method"):
             continue
@@ -175,6 +183,7 @@ def run(F, rep, tier):
                 N.last_rebinds = None
                 N.fn_inits = _local_inits(it["body"])
                 ev = N.loop_progress(n)
+                per_path.check(it, n, ev)
                 key = "%s:%s" % (it["name"], kind)
                 if ev:
                     rep.ok("C09-R5", key, sample={"fn": it["name"], "loop": kind, "evidence": ev})
@@ -189,6 +198,7 @@ def run(F, rep, tier):
                     rep.note("unproven_loops", {"fn": it["name"], "loop": kind, "rebinds": rb})
                     rep.ok("C09-R5", key + ":unproven")
     rep.floor("C09-R5", "hand-written loops in the parser", n_loops, 10)
+    per_path.finish()
     run_r7(F, rep)
     run_r8(F, rep)
     run_r9(F, rep)
